@@ -39,6 +39,12 @@ def gen_doc(rng, i):
         # every GFA1 alignment operation on links, containments and under paths
         return 'gfa1', ['S\ta\t*\tLN:i:30', 'S\tb\t*\tLN:i:30', 'S\tc\t*\tLN:i:30', 'L\ta\t+\tb\t-\t2M1=1X1I1D', 'L\tb\t-\tc\t+\t1S2M1N1H1P',
                         'C\ta\t+\tc\t-\t2\t3=1X', 'P\tp\ta+,b-,c+\t2M1=1X1I1D,1S2M1N1H1P', 'P\tq\tc-,b+\t*']
+    if i == 2:
+        # spellings that every level reads alike: signed integers, floats with exponents, positions with `$`, arrays
+        return 'gfa2', ['S\ta\t10\t*\txx:i:+6\tyy:i:-0\tzz:f:+1.5e+2\tww:f:-.5', 'S\tb\t10\tACGTACGTAC\tvv:B:i,+1,-2', 'E\te\ta+\tb-\t7\t10$\t7\t10$\t*\tTS:i:+3',
+                        'G\tg\ta+\tb+\t12\t*', 'G\th\ta-\tb+\t0\t5', 'F\ta\tr+\t0\t10$\t0\t5\t1,2\tuu:H:0A']
+    if i == 3:
+        return 'gfa1', ['H\tVN:Z:1.0', 'S\ta\tACGT\tLN:i:+4\tRC:i:+07', 'S\tb\t*\tLN:i:4\tKC:i:-0', 'L\ta\t+\tb\t-\t2M\tNM:i:+1\tMQ:i:0', 'C\ta\t+\tb\t+\t0\t4M']
     if version == 'gfa1':
         lines, info = gen.gen_gfa1(rng, cigar_codes=rng.choice(['MIDP', 'MIDNSHPX=']), lengths=rng.random() < 0.5)
     else:
